@@ -32,7 +32,7 @@ from ural.quote import (
     upper_quoted,
     unquote_letters,
 )
-from ural.patterns import PROTOCOL_RE, CONTROL_CHARS_RE
+from ural.patterns import PROTOCOL_RE, CONTROL_CHARS_RE, ASCII
 from ural.facebook import is_facebook_url, parse_facebook_url
 from ural.youtube import is_youtube_url, normalize_youtube_url
 
@@ -46,12 +46,18 @@ AMP_QUERY_COMBOS = {"outputtype": ("amp",)}
 AMP_SUBDOMAIN_PATTERN = r"|amp"
 AMP_SUFFIXES_RE = re.compile(r"(?:\.amp(?=\.html$)|\.amp/?$|(?<=/)amp/?$)", re.I)
 
-IRRELEVANT_QUERY_RE = re.compile(IRRELEVANT_QUERY_PATTERN % r"", re.I)
-IRRELEVANT_SUBDOMAIN_RE = re.compile(IRRELEVANT_SUBDOMAIN_PATTERN % r"", re.I)
+# NOTE: keys and labels are matched caselessly over ascii letters only (with re.I
+# alone "\u017fid", with a long s, is read as "sid" and "mob\u0131le." as "mobile.")
+IRRELEVANT_QUERY_RE = re.compile(IRRELEVANT_QUERY_PATTERN % r"", re.I | ASCII)
+IRRELEVANT_SUBDOMAIN_RE = re.compile(
+    IRRELEVANT_SUBDOMAIN_PATTERN % r"", re.I | ASCII
+)
 
-IRRELEVANT_QUERY_AMP_RE = re.compile(IRRELEVANT_QUERY_PATTERN % AMP_QUERY_PATTERN, re.I)
+IRRELEVANT_QUERY_AMP_RE = re.compile(
+    IRRELEVANT_QUERY_PATTERN % AMP_QUERY_PATTERN, re.I | ASCII
+)
 IRRELEVANT_SUBDOMAIN_AMP_RE = re.compile(
-    IRRELEVANT_SUBDOMAIN_PATTERN % AMP_SUBDOMAIN_PATTERN, re.I
+    IRRELEVANT_SUBDOMAIN_PATTERN % AMP_SUBDOMAIN_PATTERN, re.I | ASCII
 )
 
 IRRELEVANT_QUERY_COMBOS = {
